@@ -68,6 +68,28 @@ def shuffle_tokens(fam, rng):
     return [[(k, [mp[t] for t in ts]) for k, ts in src] for src in fam]
 
 
+def cancelling(fam, rng):
+    """give keys held by several sources values made of cancelling tokens (0x8000 and up: the merge function keeps only the parity of
+    their number), so that merged values shrink and vanish: the same token in all holders, sometimes next to an ordinary one"""
+    holders = {}
+    for si, src in enumerate(fam):
+        for k, _ in src:
+            holders.setdefault(k, []).append(si)
+    out = [list(src) for src in fam]
+    n = 0
+    for k, hs in holders.items():
+        if len(hs) < 2 or rng.random() < 0.3:
+            continue
+        tok = 0x8000 + n
+        n += 1
+        for si in hs:
+            extra = [tok] if rng.random() < 0.85 else []
+            if rng.random() < 0.25:
+                extra = sorted(extra + [0x100 + 7 * n + si])
+            out[si] = [(kk, extra if kk == k else ts) for kk, ts in out[si]]
+    return out
+
+
 def fam_to_tla(fam):
     def ent(k, toks):
         return "[k |-> %s, v |-> %s]" % (shapes.tla_bytes(k), shapes.tla_bytes(tok_bytes(toks)))
